@@ -51,6 +51,7 @@ std::map<void*, Block> blocks;
 std::size_t alloc_count, bytes_requested;
 std::map<const void*, std::pair<std::size_t, bool>> objs;
 std::vector<std::pair<void*, std::vector<unsigned char>>> frozen;
+std::vector<int> frozen_ids;
 unsigned long long next_input()
 {
     return ipos < inputs.size() ? inputs[ipos++] : 0;
@@ -92,6 +93,14 @@ extern "C"
     }
     void* verif_alloc(std::size_t bytes, std::size_t align, int id)
     {
+        for (int fid : frozen_ids)
+        {
+            if (fid == id)
+            {
+                fail("RACE-WRITE-FAIL", "allocation through the allocator instance of a shared container during a const operation");
+                break;
+            }
+        }
         AllocSpec spec{align, {}};
         if (apos < specs.size())
         {
@@ -220,8 +229,20 @@ extern "C"
             }
         }
     }
+    void verif_freeze_allocs()
+    {
+        frozen_ids.clear();
+        for (auto& b : blocks)
+        {
+            if (b.second.live)
+            {
+                frozen_ids.push_back(b.second.id);
+            }
+        }
+    }
     void verif_thaw()
     {
+        frozen_ids.clear();
         for (auto& f : frozen)
         {
             auto it = blocks.find(f.first);
